@@ -6,6 +6,8 @@ Dubins3D<Owen>, SpaceInformation::checkMotion(states,count[,first])) vs the Lean
 scripts, line by line: verdict, segment count, lastValid.second (bits), lastValid.first vs interpolant, untouched-on-
 success, the full order of subdivision indices handed to isValid, both counters before/after.
 Spec oracle (on the implementation's output only, written independently of the model, in Python): see `oracle`.
+Round 10: reconfiguration histories (`history_scripts`: swapvc / setfrac / setfac / setup / setmv / resetcnt between checks) and
+re-entrancy (`nest_scripts`: the checker runs a nested checkMotion inside its k-th question) for every validator.
 """
 import math
 import os
@@ -1545,7 +1547,10 @@ def run(ck):
                        "n = 0 with an invalid end state: the fraction must be 0 (F124; DESIGN 2.5 had excluded this point, the property text does not)",
                        "Dubins3D: when getPath finds no path the call must answer false and count one invalid motion (F75); the lastValid clause "
                        "does not apply there (no curve to interpolate; lastValid is left unset, theorem dubins3D_nopath_lastValid_unset)",
-                       "getMotionStates: count + 2 < 2^32 apart from the modelled UINT_MAX wrap; in alloc mode the incoming vector holds no owned states"]
+                       "getMotionStates: count + 2 < 2^32 apart from the modelled UINT_MAX wrap; in alloc mode the incoming vector holds no owned states",
+                       "re-entrancy: the interleaved call is made by the validity checker itself, in the same thread or in a second, JOINED thread "
+                       "(a deterministic interleaving at a query point; true data races between unsynchronised threads are not explored)",
+                       "setLongestValidSegmentFraction takes effect at the next setup() only, setValidSegmentCountFactor at once (StateSpace.h documents both)"]
     ck.lean_build(LEAN_TARGETS)
     ck.audit(roots=["Drv.Motion"])
     if ck.tier == "thorough" and ck.lean_ok:
@@ -1644,7 +1649,14 @@ MANIFEST = {
             "traversal state with a valid prefix; the TangentBundleSpaceInformation wrapper.  Tied to libompl by line-by-line differential runs of the real validators against the compiled "
             "model with a scripted, recording StateValidityChecker (verdict, fraction bits, last-valid state vs interpolant, "
             "full query order, counters; index-set and geometric box predicates; getMotionStates slot by slot incl. under-sized "
-            "vectors), plus an independent Python oracle of the property on the implementation's outputs.",
+            "vectors), plus an independent Python oracle of the property on the implementation's outputs.  Round 10: a motion check "
+            "depends on the CURRENT configuration only -- histories that replace the validity checker (pointer / function overload, old "
+            "one kept or destroyed), change the resolution (in force after setup() only) and the count factors (at once), call setup() "
+            "again, replace the validator (library default via setup(), fresh discrete one) or reset its counters, for every validator, "
+            "run through the model's Config.step (history_current_config, history_checks_irrelevant, history_verdict; "
+            "latched_checker_fails) -- and not on calls interleaved at query points: the recorded checker runs a complete nested "
+            "checkMotion (either form, same or second thread) inside the k-th validity question (reentrant_result_alone, "
+            "reentrant_validators, reentrant_nested_alone; shared_scratch_fails).",
     "note": "Trusted: Lean kernel, the three standard axioms, the hand-written model outside the explored inputs, the harness' "
             "state->index decoding.  interpolate/distance/isValid are oracles (C07/C06/C14).  n = 0 with an invalid end state "
             "(fraction -1/0) is excluded from the [0,1) clause and only exercised.  F7 (Dubins/RS/Dubins3D two-argument check did "
